@@ -366,58 +366,66 @@ def gen_pair(rng, kind=None, big=False):
 
 
 def lattice_pair(rng):
-    """half-integer lattice complex with atom pairs exactly at distance 5 (3-4-5) and 10 (6-8-0) from the partner chain"""
+    """half-integer lattice complex whose ONLY inter-chain contact is one atom pair exactly at the cutoff: distance 5 (3-4-5 offsets)
+    or 10 (6-8-0); every other inter-chain pair is farther, so `<=` versus `<` decides whether there is an interface at all"""
     res = []
     n = rng.randint(3, 5)
     for k in range(n):
         x = 4.0 * k
         res.append({'chain': 'A', 'resSeq': k + 1, 'resName': 'ALA',
                     'atoms': [('N', 'N', (x, 0.0, 0.0)), ('CA', 'C', (x + 1.5, 0.5, 0.0)), ('C', 'C', (x + 2.5, 0.0, 0.5)), ('O', 'O', (x + 2.5, 1.0, -0.5))]})
-    off = rng.choice([(3.0, 4.0, 0.0), (0.0, 3.0, 4.0), (6.0, 8.0, 0.0), (0.0, 6.0, 8.0), (0.0, 0.0, 5.0), (0.0, 10.0, 0.0)])
+    off = rng.choice([(-3.0, -4.0, 0.0), (0.0, -3.0, -4.0), (-6.0, -8.0, 0.0), (0.0, -6.0, -8.0), (0.0, 0.0, -5.0), (0.0, -10.0, 0.0)])
     m = rng.randint(3, 4)
     for k in range(m):
-        # residue k of B hangs off atom N of residue 1 of A by exactly `off` (k = 0), the others move away along +y
-        bx, by_, bz = off[0] + 0.0, off[1] + 14.0 * k, off[2] + 0.0
+        # atom N of the first residue of B sits exactly `off` from atom N of residue 1 of A; everything else of B lies at more
+        # negative x and y (all atoms of A have x, y >= 0), hence farther away
+        bx, by_, bz = off[0] - 6.0 * k, off[1] - 14.0 * k, off[2]
         res.append({'chain': 'B', 'resSeq': 10 + k, 'resName': 'GLY',
-                    'atoms': [('N', 'N', (bx, by_, bz)), ('CA', 'C', (bx - 0.5, by_ + 1.5, bz)), ('C', 'C', (bx - 1.0, by_ + 2.5, bz + 0.5)),
-                              ('O', 'O', (bx - 1.5, by_ + 2.5, bz + 1.5))]})
+                    'atoms': [('N', 'N', (bx, by_, bz)), ('CA', 'C', (bx - 0.5, by_ - 1.5, bz)), ('C', 'C', (bx - 1.5, by_ - 2.0, bz)),
+                              ('O', 'O', (bx - 2.5, by_ - 2.5, bz))]})
     ref = cg.Complex(res)
     dec = cg.jitter(rng, ref, 0.5)
-    cutoff = 5 if off in ((3.0, 4.0, 0.0), (0.0, 3.0, 4.0), (0.0, 0.0, 5.0)) else 10
+    cutoff = 5 if off in ((-3.0, -4.0, 0.0), (0.0, -3.0, -4.0), (0.0, 0.0, -5.0)) else 10
     return ref, dec, cutoff
 
 
-def interleave(rng, cx):
-    """records of two residues of one chain interleaved (a reordering that keeps first-occurrence order of residues)"""
-    out = cx.copy()
-    idx = [i for i in range(len(out.residues) - 1) if out.residues[i]['chain'] == out.residues[i + 1]['chain']]
-    if not idx:
-        return out.lines()
-    i = rng.choice(idx)
-    L = []
-    s = 1
+def residue_blocks(lines):
+    """consecutive records of the same (chain, residue number), in file order"""
     blocks = []
-    for r in out.residues:
-        ls = []
-        for (name, el, xyz) in r['atoms']:
-            ls.append(cg.atom_line(s, name, r['resName'], r['chain'], r['resSeq'], xyz[0], xyz[1], xyz[2], element=el)); s += 1
-        blocks.append(ls)
-    a, b = blocks[i], blocks[i + 1]
-    mixed = [a[0], b[0]] + a[1:] + b[1:]
-    for k, bl in enumerate(blocks):
-        if k == i:
-            L += mixed
-        elif k == i + 1:
-            continue
+    for l in lines:
+        k = (l[21], l[22:26])
+        if blocks and blocks[-1][0] == k:
+            blocks[-1][1].append(l)
         else:
-            L += bl
-    return L
+            blocks.append((k, [l]))
+    return blocks
 
 
 def permuted_lines(rng, cx, level):
-    if level == 'interleave':
-        return interleave(rng, cx)
-    return cg.permute(rng, cx, level).lines()
+    """the record lines of `cx` reordered (the records themselves, serial numbers included, are untouched):
+    'atoms' within residues, 'residues' within chains, 'chains' (blocks), 'interleave' (two residues of a chain interleaved)"""
+    blocks = residue_blocks(cx.lines())
+    if level == 'atoms':
+        for _, b in blocks:
+            rng.shuffle(b)
+    elif level in ('residues', 'chains'):
+        by = {}
+        for k, b in blocks:
+            by.setdefault(k[0], []).append((k, b))
+        order = list(by)
+        if level == 'residues':
+            for c in order:
+                rng.shuffle(by[c])
+        else:
+            order.reverse()
+        blocks = [kb for c in order for kb in by[c]]
+    elif level == 'interleave':
+        idx = [i for i in range(len(blocks) - 1) if blocks[i][0][0] == blocks[i + 1][0][0] and len(blocks[i][1]) > 1]
+        if idx:
+            i = rng.choice(idx)
+            a, b = blocks[i][1], blocks[i + 1][1]
+            blocks = blocks[:i] + [(blocks[i][0], [a[0], b[0]] + a[1:] + b[1:])] + blocks[i + 2:]
+    return [l for _, b in blocks for l in b]
 
 
 PERM_LEVELS = ['atoms', 'residues', 'chains', 'interleave']
